@@ -29,6 +29,7 @@ type HarnessSpec struct {
 	Reach    []string          `json:"reach"`
 	Note     string            `json:"note"`
 	NoReplay bool              `json:"no_replay"` // schedule-dependent: counterexamples are engine traces
+	NoWitness bool             `json:"no_witness"`
 	Race     bool              `json:"race"`
 	Timeout  int               `json:"timeout_s"`
 }
@@ -264,7 +265,7 @@ func cmdCheck(args []string) {
 	var violationLines []string
 	// witnesses: one per harness and reach label
 	for _, r := range runs {
-		if r.out == nil || r.spec.NoReplay {
+		if r.out == nil || r.spec.NoWitness {
 			continue
 		}
 		labels := append([]string(nil), r.spec.Reach...)
